@@ -54,7 +54,7 @@
 (*  (c) "never started on instances that are held, draining, still booting *)
 (*      or shut down"                                                      *)
 (*         ProcStart(c, w): w was not held or draining when the decision   *)
-(*         was made (pend[c][w] = "run").  An instance that executes a     *)
+(*         was made (some pending decision d with w not in d).  An instance that executes a     *)
 (*         command has booted and has not been destroyed; "shut down but   *)
 (*         not yet destroyed" is not observable here (limit, see C14 note).*)
 (*  (d) "a container that was cancelled, completed, put on hold or         *)
